@@ -216,6 +216,21 @@ def graph_cases(run, n):
         run.compared += 1
         try:
             g2 = UAGraph(nodes=nodes, references=refs, namespaces=list(g.namespaces), models=list(g.models))
+            # the same content put into a graph object that has answered queries before: its tables depend on the
+            # content it holds now, not on what it held when it was first asked
+            import copy
+            g3 = copy.deepcopy(g)
+            g3.get_normalized_references_df()
+            g3.get_normalized_nodes_df()
+            g3.nodes, g3.references = nodes.copy(), refs.copy()
+            for uri in [None] + list(g.namespaces[1:]):
+                c1, c2 = g3.get_normalized_nodes_df(uri), g2.get_normalized_nodes_df(uri)
+                d1, d2 = g3.get_normalized_references_df(uri), g2.get_normalized_references_df(uri)
+                if c1.astype(str).values.tolist() != c2.astype(str).values.tolist() or d1.astype(str).values.tolist() != d2.astype(str).values.tolist():
+                    if run.violation(case, {"what": "a graph object that was queried before and then given the renumbered tables answers differently from a fresh graph holding the same tables",
+                                            "namespace": uri, "call": "UAGraph.get_normalized_nodes_df / get_normalized_references_df"}):
+                        return
+                    break
             for uri in [None] + list(g.namespaces[1:]):
                 a1, a2 = g.get_normalized_nodes_df(uri), g2.get_normalized_nodes_df(uri)
                 b1, b2 = g.get_normalized_references_df(uri), g2.get_normalized_references_df(uri)
